@@ -14,7 +14,7 @@ ASSUMPTIONS = [
 ]
 
 # properties whose statement covers a crash of the process under test
-CRASH_DEFAULT = ("C02", "C03", "C09", "C15", "C16", "C18")
+CRASH_DEFAULT = ("C02", "C03", "C09", "C12", "C15", "C16", "C18")
 
 
 def fams(*fs):
@@ -311,12 +311,16 @@ PROPS = {
             "quick": lambda s: gen.fam_neg(s),
             "thorough": lambda s: gen.fam_neg(s) + gen.fam_data(s, 120)},
     "C08": {"level": "model_checking", "hang": True, "also": ["C09_SrvTunnelLevel"],
-            "quick": lambda s: gen.fam_ids(s, 64) + [x for x in gen.fam_hostile_srv(s) if "-new-" in x["name"] or "unknown-sid" in x["name"] or "-sid0" in x["name"] or "negative" in x["name"] or "disposed" in x["name"] or "-shutdown" in x["name"]],
+            "quick": lambda s: gen.fam_ids(s, 64) + [x for x in gen.fam_hostile_srv(s) if "-new-" in x["name"] or "unknown-sid" in x["name"] or "-sid0" in x["name"] or "negative" in x["name"] or "disposed" in x["name"] or "-shutdown" in x["name"]]
+                               # an RPC cancelled while its creator stands between id allocation and the new-stream frame reaching the wire
+                               + gen.fam_gates(s, 2, gates=["cli.alloc", "cli.tx.lock", "cli.new.sent"], faults=("cancel@park",)),
             "thorough": lambda s: gen.fam_ids(s, 600) + gen.fam_hostile_srv(s) + gen.fam_gates(s, 4, gates=["cli.alloc", "cli.new.sent", "car.sent.c2s.new"])},
     "C09": {"level": "model_checking", "hang": True,
             "quick": lambda s: gen.fam_hostile_srv(s) + gen.fam_hostile_cli(s),
             "thorough": lambda s: gen.fam_hostile_srv(s) + gen.fam_hostile_cli(s)},
-    "C05": {"level": "model_checking", "runner": run_c05, "hang": True, "also": ["C03_BystandersComplete", "C06_SenderWithinWindow", "C06_CreditBounded"],
+    "C05": {"level": "model_checking", "runner": run_c05, "hang": True,
+            # (a sender waiting for credit is released when its RPC is cancelled: C05's own quantification includes cancellation)
+            "also": ["C03_BystandersComplete", "C06_SenderWithinWindow", "C06_CreditBounded", "C07_CallerEndsAlone", "C07_HandlerReleased"],
             # liveness of the tunnel design under fairness (every caller operation returns, every handler ends)
             "mc": {"quick": ["MC_one"], "thorough": ["MC_one", "MC_two_stepped", "Live_one", "Live_err_cancel"]},
             "quick": lambda s: gen.fam_flow(s, 48) + gen.fam_data(s, 16),
@@ -333,7 +337,7 @@ PROPS = {
                                                faults=("cancel@park", "close@park"))
                                # frames still in flight when a deadline ends the RPC on both ends (revision zero included)
                                + [x for x in gen.fam_cancel(s, 2, policies=("lazy",), fcs=("fc",)) if "deadline" in x["name"]]
-                               + gen.fam_inflight(s),
+                               + gen.fam_inflight(s) + gen.fam_stalled_close(s),
             "thorough": lambda s: sum((gen.fam_free(s + i, 400) for i in range(4)), []) + [x for x in gen.fam_meta(s, 200, gated=False) if "meta-bin" not in x["name"]] + gen.fam_data(s, 100),
             "technique": "TLA+ trace validation (monitor mode) of free-running concurrent executions; Go race detector attached as auxiliary monitor",
             "text": "thread-safety is decided as conformance of concurrent executions: every free-running execution of a generated concurrent program, recorded with "
